@@ -10,7 +10,8 @@
 From Coq Require Import String Ascii.
 From Coq Require Import List NArith Arith Bool.
 From HV Require Import Base.Res Base.Str Model.Parse Model.ValKinds Model.ValStr Model.Validate.
-From HV Require Import Gen.ValidationCodes Proofs.ValidateProofs Proofs.C01Examples Proofs.C01ExamplesProofs.
+From HV Require Import Gen.ValidationCodes Proofs.ValidateProofs Proofs.ValidateDups Proofs.ValidateTemporal
+  Proofs.ValidateMut Proofs.C01Examples Proofs.C01ExamplesProofs.
 Import ListNotations.
 
 Definition s2l (s : String.string) : str := map Ascii.N_of_ascii (String.list_ascii_of_string s).
@@ -21,7 +22,7 @@ Inductive rule :=
 | R_slash | R_prefix | R_tag_character | R_unknown_tag | R_extension_is_term | R_forbidden_extension
 | R_stray_placeholder | R_requires_child | R_bad_unit | R_bad_value | R_definition_in_data
 | R_undeclared_def | R_altered_def_expand | R_tag_group_outside | R_top_level_misplaced
-| R_several_top_level | R_unique_twice | R_required_missing | R_repeated.
+| R_several_top_level | R_unique_twice | R_required_missing | R_repeated | R_temporal_shape.
 
 (* the HED specification's error code of each rule (hand-written) *)
 Definition spec_code (r : rule) : str :=
@@ -51,6 +52,7 @@ Definition spec_code (r : rule) : str :=
   | R_unique_twice => s2l "TAG_NOT_UNIQUE"
   | R_required_missing => s2l "REQUIRED_TAG_MISSING"
   | R_repeated => s2l "TAG_EXPRESSION_REPEATED"
+  | R_temporal_shape => s2l "TEMPORAL_TAG_ERROR"
   end.
 
 (* ------------------------------------------------------------------ two-phase structure *)
@@ -89,12 +91,19 @@ Theorem C01_basic_phase_no_error : forall cfg f,
 Proof. exact basic_ok_no_error. Qed.
 Print Assumptions C01_basic_phase_no_error.
 
-(* FULL STATEMENT (valid_no_error):
-     forall cfg f, Conforming cfg f -> exists r, validate_forest cfg f = Ok r /\ errors r = [].
-   with Conforming also demanding "no two equal siblings" and well-shaped Duration/Delay and
-   Onset/Offset/Inset groups.  Proved below for every check except those three group checks, which enter
-   as explicit hypotheses (what is missing: a proof that the sorted view of a forest without equal siblings
-   has no equal neighbours, and the shape lemmas for temporal groups). *)
+(* FULL: a conforming annotation validates without raising and without any error-severity issue.
+   [ConformingFull] = [Conforming] (well-formed text, every tag individually rule-conforming, tag-group /
+   top-level-group tags correctly placed with at most one top-level-group tag per top-level group, required tags
+   present, unique tags at most once) + no two equal siblings in any group (equal = same case-folded, order-free
+   canonical text) + correctly shaped Duration/Delay and Onset/Offset/Inset groups.
+   (The grammar is slightly narrower than the language the validator accepts: a Delay tag next to a second
+   top-level-group tag in one group is not generated; see C01_nonvacuous_* for inhabitants.) *)
+Theorem C01_valid_no_error : forall cfg f,
+  ConformingFull cfg f -> exists r, validate_forest cfg f = Ok r /\ errors r = [].
+Proof. exact valid_no_error. Qed.
+Print Assumptions C01_valid_no_error.
+
+(* the same with the three group checks as explicit hypotheses instead of grammar conditions *)
 Theorem C01_valid_no_error_partial : forall cfg f d,
   Conforming cfg f ->
   check_duplicates f = Ok d -> errors d = [] ->
@@ -103,6 +112,12 @@ Theorem C01_valid_no_error_partial : forall cfg f d,
   exists r, validate_forest cfg f = Ok r /\ errors r = [].
 Proof. exact valid_no_error_partial. Qed.
 Print Assumptions C01_valid_no_error_partial.
+
+(* the duplicate check is silent exactly on the grammar condition "no two siblings with the same canonical text" *)
+Theorem C01_duplicate_check_sound : forall f,
+  nodup_groups (f :: sub_groups f) -> check_duplicates f = Ok [].
+Proof. exact check_duplicates_sound. Qed.
+Print Assumptions C01_duplicate_check_sound.
 
 (* how the hypotheses [phase1_clean] / [phase2_clean] / [phase3_total] / [basic_clean] of the per-rule theorems
    below are met by a mutated annotation: every tag of it (the injected one included) has a well-formed text
@@ -326,20 +341,133 @@ Theorem C01_mutation_required_missing : forall cfg s f p,
 Proof. exact rule_required_missing. Qed.
 Print Assumptions C01_mutation_required_missing.
 
-(* NOT PROVED for all inputs (listed per the fallback ladder, rule by rule): repeated tag / group
-   (mutation_reports_code_repeated : two equal siblings => TAG_EXPRESSION_REPEATED; needs "a stable sort by the
-   canonical text makes equal siblings neighbours") and the temporal group shapes (TEMPORAL_TAG_ERROR): both are
-   covered by the correspondence run and the instances below only.  The instance ex_f2 is the former finding
-   C01-F2 "(Red,Blue),(Green),(Blue,Red)", reported since the fix: commit that sorts groups canonically. *)
+(* repeated tag / repeated group, ALL forests, any depth: in any group of the annotation (the annotation itself
+   included) two members with the same canonical text (case-folded short forms, members of groups in sorted order)
+   are reported.  [names_ok]: folded short forms are non-empty and free of ",()" (what the parser guarantees).
+   Reuses C04's unique decoding of canonical keys and its stable-sort facts. *)
+Theorem C01_mutation_repeated : forall cfg s f Q g l1 a l2 b l3,
+  basic_clean cfg s f -> Forall (wf_n Q) f -> names_ok (all_tags f) ->
+  In g (f :: sub_groups f) -> g = l1 ++ a :: l2 ++ b :: l3 -> ckeyf a = ckeyf b ->
+  reports cfg s f (spec_code R_repeated).
+Proof. exact rule_repeated. Qed.
+Print Assumptions C01_mutation_repeated.
+
 Example C01_repeated_group_regression :
   reports cfg830 (fprint ex_f2) ex_f2 (spec_code R_repeated).
 Proof. exact ex_f2_reported. Qed.
 Print Assumptions C01_repeated_group_regression.
 
+(* Duration / Delay group shape (g is a top-level group whose first Duration/Delay tag is t) *)
+Theorem C01_mutation_duration_other_tags : forall cfg s f g t i u,
+  basic_clean cfg s f -> (exists fl, full_checks cfg f = Ok fl) ->
+  In g (groups_of f) -> first_anchor (map ascii_fold duration_keys) 0 g = Some (t, i) ->
+  existsb (fun x => str_mem x temporal_keys) (top_level_names g) = false ->
+  length (top_level_names g) <> length (tags_of g) ->
+  In u (tags_of g) -> str_mem (sbase_of u) (top_level_names g) = false ->
+  reports cfg s f (spec_code R_temporal_shape).
+Proof. exact rule_duration_other_tags. Qed.
+Print Assumptions C01_mutation_duration_other_tags.
+
+Theorem C01_mutation_duration_wrong_number_groups : forall cfg s f g t i,
+  basic_clean cfg s f -> (exists fl, full_checks cfg f = Ok fl) ->
+  In g (groups_of f) -> first_anchor (map ascii_fold duration_keys) 0 g = Some (t, i) ->
+  existsb (fun x => str_mem x temporal_keys) (top_level_names g) = false ->
+  length (top_level_names g) = length (tags_of g) -> length (groups_of g) <> 1 ->
+  reports cfg s f (spec_code R_temporal_shape).
+Proof. exact rule_duration_wrong_number_groups. Qed.
+Print Assumptions C01_mutation_duration_wrong_number_groups.
+
+(* Onset / Offset / Inset group shape (g is a top-level group whose first temporal tag is [onset], child oi) *)
+Theorem C01_mutation_onset_no_def : forall cfg s f g onset oi,
+  basic_clean cfg s f -> (exists fl, full_checks cfg f = Ok fl) ->
+  In g (groups_of f) -> first_anchor (map ascii_fold temporal_keys) 0 g = Some (onset, oi) ->
+  def_tags_from 0 g = [] ->
+  reports cfg s f (spec_code R_temporal_shape).
+Proof. exact rule_onset_no_def. Qed.
+Print Assumptions C01_mutation_onset_no_def.
+
+Theorem C01_mutation_onset_too_many_defs : forall cfg s f g onset oi x y l,
+  basic_clean cfg s f -> (exists fl, full_checks cfg f = Ok fl) ->
+  In g (groups_of f) -> first_anchor (map ascii_fold temporal_keys) 0 g = Some (onset, oi) ->
+  def_tags_from 0 g = x :: y :: l ->
+  reports cfg s f (spec_code R_temporal_shape).
+Proof. exact rule_onset_too_many_defs. Qed.
+Print Assumptions C01_mutation_onset_too_many_defs.
+
+Theorem C01_mutation_onset_wrong_number_groups : forall cfg s f g onset oi dt di,
+  basic_clean cfg s f -> (exists fl, full_checks cfg f = Ok fl) ->
+  In g (groups_of f) -> first_anchor (map ascii_fold temporal_keys) 0 g = Some (onset, oi) ->
+  def_tags_from 0 g = [(dt, di)] -> onset_max onset < length (onset_children g di oi) ->
+  reports cfg s f (spec_code R_temporal_shape).
+Proof. exact rule_onset_wrong_number_groups. Qed.
+Print Assumptions C01_mutation_onset_wrong_number_groups.
+
+Theorem C01_mutation_onset_tag_outside_group : forall cfg s f g onset oi dt di u rest,
+  basic_clean cfg s f -> (exists fl, full_checks cfg f = Ok fl) ->
+  In g (groups_of f) -> first_anchor (map ascii_fold temporal_keys) 0 g = Some (onset, oi) ->
+  def_tags_from 0 g = [(dt, di)] -> length (onset_children g di oi) <= onset_max onset ->
+  onset_children g di oi = FTag u :: rest ->
+  reports cfg s f (spec_code R_temporal_shape).
+Proof. exact rule_onset_tag_outside_group. Qed.
+Print Assumptions C01_mutation_onset_tag_outside_group.
+
+Theorem C01_mutation_onset_def_unmatched : forall cfg s f g onset oi dt di,
+  basic_clean cfg s f -> (exists fl, full_checks cfg f = Ok fl) ->
+  In g (groups_of f) -> first_anchor (map ascii_fold temporal_keys) 0 g = Some (onset, oi) ->
+  def_tags_from 0 g = [(dt, di)] -> length (onset_children g di oi) <= onset_max onset ->
+  tf_def_known dt = false ->
+  reports cfg s f (spec_code R_temporal_shape).
+Proof. exact rule_onset_def_unmatched. Qed.
+Print Assumptions C01_mutation_onset_def_unmatched.
+
+Theorem C01_mutation_onset_placeholder_wrong : forall cfg s f g onset oi dt di,
+  basic_clean cfg s f -> (exists fl, full_checks cfg f = Ok fl) ->
+  In g (groups_of f) -> first_anchor (map ascii_fold temporal_keys) 0 g = Some (onset, oi) ->
+  def_tags_from 0 g = [(dt, di)] -> length (onset_children g di oi) <= onset_max onset ->
+  tf_def_known dt = true -> tf_def_takes_value dt <> has_placeholder dt ->
+  reports cfg s f (spec_code R_temporal_shape).
+Proof. exact rule_onset_placeholder_wrong. Qed.
+Print Assumptions C01_mutation_onset_placeholder_wrong.
+
+(* ------------------------------------------------------------------ relational form (string-level rules) *)
+(* [MutString cfg f r x]: x is the canonical text of f with exactly one violation of the string-level rule r
+   injected (a forbidden character / tilde / curly brace inserted anywhere, one parenthesis inserted or deleted
+   anywhere, a comma added in front / at the end / doubled between two top-level members, the comma in front of a
+   top-level group replaced by blanks).  Whatever tree [fx] the parser builds for the damaged text, the code of the
+   rule is reported.  (The tag-level and group-level rules are stated above on the mutated annotation itself;
+   C01_reach_phase1/3 and C01_reach_full_phase connect their hypotheses to per-tag conformity.) *)
+Definition srule_rule (r : srule) : rule :=
+  match r with
+  | S_forbidden_character => R_forbidden_character | S_tilde => R_tilde | S_curly_brace => R_curly_brace
+  | S_unbalanced => R_unbalanced_parentheses | S_empty => R_empty_tag | S_missing_comma => R_missing_comma
+  end.
+
+Theorem C01_mutation_reports_code_string_level : forall cfg f r x,
+  Conforming cfg f -> MutString cfg f r x -> forall fx, reports cfg x fx (spec_code (srule_rule r)).
+Proof.
+  exact (fun cfg f r x Hc => mut_string_reports (fun r => spec_code (srule_rule r))
+           (fun r => match r with
+                     | S_forbidden_character => eq_refl | S_tilde => eq_refl | S_curly_brace => eq_refl
+                     | S_unbalanced => eq_refl | S_empty => eq_refl | S_missing_comma => eq_refl end)
+           cfg f r x (conforming_words cfg f Hc)).
+Qed.
+Print Assumptions C01_mutation_reports_code_string_level.
+
 (* ------------------------------------------------------------------ non-vacuity (real HED 8.3.0 annotations) *)
 Example C01_nonvacuous_valid :
-  Conforming cfg830 ex_valid /\ validate_forest cfg830 ex_valid = Ok [iss K_TAG_EXTENDED].
-Proof. exact ex_valid_conforming. Qed.
+  ConformingFull cfg830 ex_valid /\ validate_forest cfg830 ex_valid = Ok [iss K_TAG_EXTENDED].
+Proof. exact ex_valid_conforming_full. Qed.
+
+(* "(Def/OnDef,Onset,(Red)),(Duration/3 s,(Green)),Blue,(Def/OnVal/3,Offset)" *)
+Example C01_nonvacuous_temporal :
+  ConformingFull cfg830 ex_temporal /\ validate_forest cfg830 ex_temporal = Ok [].
+Proof. exact ex_temporal_conforming_full. Qed.
+
+(* "(Onset,Red)" and "(Duration/3 s)" *)
+Example C01_nonvacuous_temporal_mutations :
+  reports cfg830 (fprint ex_onset_bad) ex_onset_bad (spec_code R_temporal_shape)
+  /\ reports cfg830 (fprint ex_duration_bad) ex_duration_bad (spec_code R_temporal_shape).
+Proof. exact ex_temporal_mutations. Qed.
 
 Example C01_nonvacuous_mutations :
   reports cfg830 (fprint ex_unknown) ex_unknown (spec_code R_unknown_tag)
